@@ -768,10 +768,10 @@ class Engine:
             if isinstance(a, BoxPtr):
                 return Ref(a.box, 0)
             if isinstance(a, Ref) and ty == 'usize':
-                return mk_int(0, 'usize')
+                return mk_int(4096, 'usize')      # non-null, aligned: pointers are abstract
             if isinstance(a, (Ref, StrV, Opaque, Closure, SliceRef)) or a is UNIT:
                 if ty == 'usize':
-                    return mk_int(0, 'usize')
+                    return mk_int(4096, 'usize')
                 return a
             if isinstance(a, BV) and ty in INT_TYPES and INT_TYPES[ty][0] == INT_TYPES[a.ty][0]:
                 return BV(a.v if not isinstance(a.v, int) else norm_int(a.v, ty), ty)
